@@ -18,7 +18,7 @@ func init() {
 		Quick: []ruleDef{
 			{"SCO-PAIR", 1, ruleScoPair},
 			{"SCO-SWAP", 5, ruleScoSwap},
-			{"SCO-DECL", 6, ruleScoDecl},
+			{"SCO-DECL", 4, ruleScoDecl},
 			{"SCO-ORDER", 4, ruleScoOrder},
 		},
 	})
